@@ -85,7 +85,7 @@ def nontrivial(case, result):
 
 
 def prebuild(root):
-    """translators: regenerate coq/Generated/DigitGen.v from /repo/src/digit.rs (proved equal to Model/Digit.v in
-    Proofs/DigitTie.v) and coq/Generated/Glue.v from the one-line projection functions of /repo/src (proved equal to the
-    hand-written model in Proofs/GlueTie.v); the first translator error is returned"""
-    return run_translator(root, "rs2v_digit.py") or run_translator(root, "rs2v_glue.py")
+    """translators (the first error text is returned): coq/Generated/DigitGen.v from /repo/src/digit.rs (Proofs/DigitTie.v),
+    coq/Generated/Glue.v from the one-line projection functions (Proofs/GlueTie.v), coq/Generated/Loops.v from the loop
+    functions of /repo/src/buint (Proofs/LoopsTie*.v) -- each proved equal to the hand-written model"""
+    return run_translator(root, "rs2v_digit.py") or run_translator(root, "rs2v_glue.py") or run_translator(root, "rs2v_loops.py")
